@@ -48,6 +48,7 @@ type driver struct {
 	tier        string
 	burned      []sdkmath.Int // model: coin-pair tokens burned by holders, per depth
 	atestSupply sdkmath.Int
+	lastBurned  string // model state after the latest operation (part of the state digest)
 }
 
 var unit = new(big.Int).Exp(big.NewInt(10), big.NewInt(18), nil)
@@ -213,7 +214,9 @@ func (d *driver) ops(w *world.World, depth int, path []string) []engine.Op {
 				d.burned = append(d.burned, sdkmath.ZeroInt())
 			}
 			d.burned[len(p)] = d.burned[len(p)-1]
-			return f(p, res)
+			r := f(p, res)
+			d.lastBurned = d.burned[len(p)].String()
+			return r
 		}})
 	}
 	classes := []string{"1", "half", "all", "all+1"}
@@ -404,8 +407,10 @@ func bounds(tier string) int {
 func Worker(shard, n int, tier string) *engine.Result {
 	d := newDriver(tier)
 	res := engine.NewResult(Prop)
+	// state = bank + erc20 + evm stores + the model's burn counter; account sequences (acc store) are
+	// left out on purpose: they only number the transactions and nothing the property observes depends on them
 	e := &engine.Explorer{W: d.w, Res: res, Stores: []string{"bank", "erc20", "evm"}, Ops: d.ops, Invariant: d.invariant, MaxDepth: bounds(tier),
-		Shard: shard, NShards: n, Deadline: time.Now().Add(25 * time.Minute), NoDedup: true}
+		Shard: shard, NShards: n, Deadline: time.Now().Add(25 * time.Minute), Extra: func(w *world.World) string { return d.lastBurned }}
 	e.Run()
 	// part B: IBC legs
 	di := newIBCDriver(tier)
@@ -415,7 +420,9 @@ func Worker(shard, n int, tier string) *engine.Result {
 		depthB = 5
 	}
 	eb := &engine.Explorer{W: di.w, Res: sub, Stores: []string{"bank", "erc20", "evm", "ibc", "transfer"}, Ops: di.ops, Invariant: di.invariant, MaxDepth: depthB,
-		Shard: shard, NShards: n, Deadline: time.Now().Add(25 * time.Minute), NoDedup: true}
+		Shard: shard, NShards: n, Deadline: time.Now().Add(25 * time.Minute), Extra: func(w *world.World) string {
+			return di.lastBurned + "|" + di.lastPend + "|" + fmt.Sprint(w.Header.Time.Unix())
+		}}
 	eb.Run()
 	res.Counters["partB_transitions"] += int64(sub.Transitions)
 	for k, v := range sub.States {
